@@ -21,6 +21,7 @@ LEVEL = 'model_checking'
 FATAL = ['handler', 'calc', 'task', 'abort', 'ctrl-abort']
 CANCEL = ['shutdown', 'ctrl-shutdown']
 HARMLESS = ['badparam', 'unknown']
+SUPPORT = ['support-raises', 'support-returns']      # only meaningful under edzed.run()
 KINDS = FATAL + CANCEL + HARMLESS
 BOUNDS = {'quick': {'sources': 2, 'kinds': KINDS, 'instants': 'symbolic in [1, 10] s'},
           'thorough': {'sources': 3, 'kinds': KINDS, 'instants': 'symbolic in [1, 10] s'}}
@@ -30,7 +31,7 @@ STUBS = ["virtual-time loop with symbolic clock"]
 ASSUMPTIONS = ["a handler error is reported as EdzedCircuitError whose __cause__ is the original exception"]
 EXPECT_LABELS = {'all': ['first-delivered-wins', 'first-error-reported', 'error-attr', 'shutdown-reraises', 'cancel-is-normal', 'not-ready-after',
                          'harmless-dont-stop', 'run-result', 'abort-before-start', 'nonfatal-init']}
-EXPECT_NOTES = {'all': ['tie', 'fatal-first', 'cancel-first', 'only-harmless', 'caught-handler-error-aborts']}
+EXPECT_NOTES = {'all': ['support-task-ends', 'tie', 'fatal-first', 'cancel-first', 'only-harmless', 'caught-handler-error-aborts']}
 FLOORS = {'quick': {'paths': 300, 'checks': 1500}, 'thorough': {'paths': 3000, 'checks': 15000}}
 
 
@@ -103,6 +104,12 @@ async def fire(circ, pb, kind, i, t, caught, fired, yields):
         elif kind == 'ctrl-shutdown':
             fired.append(i)
             circ.findblock('_ctrl').event('shutdown', source=f"marker-{i}")
+        elif kind == 'support-raises':
+            fired.append(i)
+            raise LookupError(f"marker-{i}")
+        elif kind == 'support-returns':
+            fired.append(i)
+            return 'finished'
         elif kind == 'badparam':
             try:
                 pb.event('x')             # missing value
@@ -113,6 +120,8 @@ async def fire(circ, pb, kind, i, t, caught, fired, yields):
                 pb.event('no_such_event')
             except edzed.EdzedUnknownEvent:
                 caught.append(('unknown', i, circ.is_ready(), circ.error))
+    except LookupError:
+        raise
     except Exception as err:
         caught.append(('unexpected', i, err))
 
@@ -146,7 +155,8 @@ def scen_errors(env, kinds, use_run):
         fires = [fire(circ, pb, k, i, times[i], caught, fired, yields[i]) for i, k in enumerate(kinds) if k != 'task']
         if use_run:
             async def support(coro):
-                await coro
+                if await coro == 'finished':
+                    return
                 await asyncio.sleep(1000)
             try:
                 r = await edzed.run(*[support(c) for c in fires])
@@ -198,6 +208,30 @@ def scen_errors(env, kinds, use_run):
         env.note('tie')
     err = res['error']
     kinds_first = [kinds[i] for i in first]
+    if use_run and any(k in SUPPORT for k in kinds):
+        # run(): the simulator's error if there is one, otherwise the error of the first failing supporting
+        # task; a supporting task that ends makes run() stop everything (a normal stop for the simulator)
+        what, val = res['run']
+        order = [i for i in fired]
+        f0 = order[0] if order else None
+        env.note('support-task-ends')
+        if f0 is None:
+            return
+        k0 = kinds[f0]
+        if k0 in FATAL:
+            env.check('run-result', what == 'raised' and f0 in marker_of(val), info=lambda: (kinds, fired, res))
+        elif k0 == 'support-raises':
+            # the simulator is then shut down normally: the supporting task's error is what run() reports
+            later_fatal = [i for i in order[1:] if kinds[i] in FATAL]
+            env.check('run-result', what == 'raised' and (f0 in marker_of(val) or bool(set(later_fatal) & marker_of(val))),
+                      info=lambda: (kinds, fired, res))
+            if not later_fatal:
+                env.check('run-support-error', isinstance(val, LookupError) and f0 in marker_of(val), info=lambda: res)
+        elif k0 == 'support-returns' or k0 in CANCEL:
+            later = [i for i in order[1:] if kinds[i] in FATAL or kinds[i] == 'support-raises']
+            if not later:
+                env.check('run-result', what == 'returned' and val is None, info=lambda: (kinds, fired, res))
+        return
     if use_run:
         what, val = res['run']
         if all(k in CANCEL for k in kinds_first):
@@ -390,6 +424,11 @@ def shards(tier):
         out.append({'name': f'2 sources {ks}', 'scenario': 'scen_errors', 'params': {'kinds': list(ks), 'use_run': False}})
     for ks in itertools.product(FATAL + CANCEL, repeat=2):
         out.append({'name': f'run() 2 sources {ks}', 'scenario': 'scen_errors', 'params': {'kinds': list(ks), 'use_run': True}})
+    for sk in SUPPORT:
+        out.append({'name': f'run() 1 source {sk}', 'scenario': 'scen_errors', 'params': {'kinds': [sk], 'use_run': True}})
+        for k in FATAL + CANCEL + SUPPORT:
+            out.append({'name': f'run() 2 sources ({sk}, {k})', 'scenario': 'scen_errors',
+                        'params': {'kinds': [sk, k], 'use_run': True}})
     if n >= 3:
         for ks in itertools.combinations_with_replacement(FATAL + CANCEL[:1] + HARMLESS[:1], 3):
             out.append({'name': f'3 sources {ks}', 'scenario': 'scen_errors', 'params': {'kinds': list(ks), 'use_run': False},
